@@ -28,6 +28,32 @@ def strip_k(e):
     return e if isinstance(e, dict) else {}
 
 
+def _alphabetic(ch):
+    """Unicode `Alphabetic` as far as the general category decides it: letters and letter numbers are, symbols / punctuation / separators / format characters are not;
+    marks and other numbers depend on Other_Alphabetic, which Python's tables do not carry -> None (unknown)"""
+    import unicodedata
+    cat = unicodedata.category(ch)
+    if cat[0] == "L" or cat == "Nl":
+        return True
+    if cat[0] in ("S", "P", "Z") or cat in ("Cf", "Cc", "Co", "Cs", "Cn"):
+        return False
+    return None
+
+
+CHAR_PREDICATES = {
+    "is_alphabetic": _alphabetic,
+    "is_ascii_alphabetic": lambda ch: ch.isascii() and ch.isalpha(),
+    "is_ascii_digit": lambda ch: ch.isascii() and ch.isdigit(),
+    "is_ascii_alphanumeric": lambda ch: ch.isascii() and ch.isalnum(),
+    "is_ascii_uppercase": lambda ch: ch.isascii() and ch.isupper(),
+    "is_ascii_lowercase": lambda ch: ch.isascii() and ch.islower(),
+    "is_ascii_whitespace": lambda ch: ch in " \t\n\x0c\r",
+    "is_ascii": lambda ch: ch.isascii(),
+    "is_alphanumeric": lambda ch: (True if (_alphabetic(ch) or __import__("unicodedata").category(ch)[0] == "N") else (False if _alphabetic(ch) is False else None)),
+    "is_whitespace": lambda ch: ch.isspace() if __import__("unicodedata").category(ch) in ("Zs", "Zl", "Zp", "Cc") or ch.isspace() else False,
+}
+
+
 class TooManyPaths(Exception):
     pass
 
@@ -127,6 +153,12 @@ class Evaluator:
                 return v[1] == p["v"]
             if v[0] == "lit":
                 return v[1] == p["v"]
+            return None
+        if k == "Range" and self.ints and v[0] == "lit" and isinstance(v[1], str) and len(v[1]) == 1:
+            lo, hi = p.get("lo"), p.get("hi")
+            if (lo is None or (isinstance(lo.get("v"), str) and len(lo["v"]) == 1)) and (hi is None or (isinstance(hi.get("v"), str) and len(hi["v"]) == 1)):
+                x = ord(v[1])
+                return (lo is None or ord(lo["v"]) <= x) and (hi is None or (x <= ord(hi["v"]) if p.get("end") == "Included" else x < ord(hi["v"])))
             return None
         if k == "Range" and self.ints:
             lo, hi = p.get("lo"), p.get("hi")
@@ -760,6 +792,10 @@ class Evaluator:
                 res.append(rs[0][1][1])
             if ok:
                 yield s, mk_bool(all(res) if method == "all" else any(res))
+        elif seq0 is not None and method == "next" and len(args) == 1 and getattr(self, "recv_local", None):
+            s2 = s.fork()
+            s2.env[self.recv_local] = ("iterv", list(seq0[1:]))
+            yield s2, (some(seq0[0]) if seq0 else none)
         elif seq0 is not None and method == "collect" and len(args) == 1:
             yield s, ("array", list(seq0))
         elif seq0 is not None and method in ("len", "count") and len(args) == 1:
@@ -770,6 +806,10 @@ class Evaluator:
             yield s, (some(seq0[0 if method == "first" else -1]) if seq0 else none)
         elif (c.endswith("::from_digit") and "char" in c) and len(args) == 2 and a0[0] == "lit" and isinstance(a0[1], int) and args[1][0] == "lit" and isinstance(args[1][1], int):
             yield s, (some(("lit", "0123456789abcdefghijklmnopqrstuvwxyz"[a0[1]])) if 0 <= a0[1] < args[1][1] <= 36 else none)
+        elif "char" in c and len(args) == 1 and a0[0] == "lit" and isinstance(a0[1], str) and len(a0[1]) == 1 and method in CHAR_PREDICATES:
+            r = CHAR_PREDICATES[method](a0[1])
+            if r is not None:
+                yield s, mk_bool(r)
         elif c.endswith("RangeInclusive::<Idx>::new") and len(args) == 2:
             yield s, ("range", args[0], args[1], True)
         elif method == "contains" and "ops::range::Range" in c and len(args) == 2 and a0[0] == "range":
@@ -941,11 +981,11 @@ class Evaluator:
                         yield s, (("v", "Some", [("tuple", [a[2][0], b[2][0]])]) if a[1] == "Some" and b[1] == "Some" else ("v", "None", []))
                         continue
                 self.calls_seen.append(callee)
+                rl = e["recv"]
+                while rl.get("k") == "AddrOf" or (rl.get("k") == "Unary" and rl.get("op") == "*"):
+                    rl = rl.get("e") or rl.get("a")
+                self.recv_local = rl.get("name") if rl.get("k") == "Path" and rl.get("res") == "local" else None
                 if self.call_hook:
-                    rl = e["recv"]
-                    while rl.get("k") == "AddrOf" or (rl.get("k") == "Unary" and rl.get("op") == "*"):
-                        rl = rl.get("e") or rl.get("a")
-                    self.recv_local = rl.get("name") if rl.get("k") == "Path" and rl.get("res") == "local" else None
                     r = self.call_hook(callee, [recv] + args, s)
                     if r is not None:
                         if isinstance(r, dict):
